@@ -424,6 +424,7 @@ type childRep struct {
 	r      *bufio.Reader
 	rf     *os.File
 	alive  bool
+	paused bool
 }
 
 func (c *childRep) spawn() error {
@@ -537,8 +538,29 @@ func (c *childRep) Kill() {
 
 func (c *childRep) Alive() bool { c.mu.Lock(); defer c.mu.Unlock(); return c.alive }
 
+// Pause / Resume freeze and thaw the replica process (SIGSTOP / SIGCONT): a long scheduling or GC pause.
+func (c *childRep) Pause() {
+	c.mu.Lock()
+	if c.alive && c.cmd != nil && c.cmd.Process != nil {
+		c.cmd.Process.Signal(syscall.SIGSTOP)
+		c.paused = true
+	}
+	c.mu.Unlock()
+}
+
+func (c *childRep) Resume() {
+	c.mu.Lock()
+	if c.alive && c.cmd != nil && c.cmd.Process != nil {
+		c.cmd.Process.Signal(syscall.SIGCONT)
+	}
+	c.paused = false
+	c.mu.Unlock()
+}
+
+func (c *childRep) isPaused() bool { c.mu.Lock(); defer c.mu.Unlock(); return c.paused }
+
 func (c *childRep) Status() (status, error) {
-	if !c.Alive() {
+	if !c.Alive() || c.isPaused() {
 		return status{}, nil
 	}
 	rsp, err := c.call(childReq{Cmd: "status"}, 5*time.Second)
